@@ -4,6 +4,7 @@
    those it is carried by the correspondence and the Spec oracle); what is proved for all charts,
    configurations, events and datamodel states are the invariants below. *)
 From V Require Import Base NameMatch Chart Exec Large LargeLemmas Interp LargeCache LargeCacheLemmas Spec ExitSetLemmas.
+From V Require Import FlattenWf FlattenWfLemmas FlattenWfRun FlattenWfSide FlattenWfSideLemmas FlattenWfConform.
 From V Require Import Legal WfCore SelectConform SelectConformLemmas SelectConformOrder SelectConformRoot SelectConformFlatten.
 From V Require Import MicroConform MicroConformLemmas MicroConformEntry MicroConformCompose MicroConformFlatten MicroConformWitness.
 
@@ -318,3 +319,271 @@ Theorem microstep_root_in_refuted :
     snd q <> emit (Spec.spec_cfg_tok c (fst q)) (snd r).
 Proof. exact MicroConformWitness.microstep_root_in_refuted. Qed.
 Print Assumptions microstep_root_in_refuted.
+
+(* ---- the static hypotheses on the DOCUMENT ----
+   c01_treeb t (FlattenWfSide.v) = core_treeb t (see Properties_C02.v: only state/parallel/final elements,
+   a root with a child state, unique ids, 'initial' names one child, no transition to the root, legal
+   target sets) and
+     ct_par_nonemptyb       every <parallel> has a child;
+     ct_root_unmentionedb   no transition condition asks In(<id of the root>);
+     ct_targets_antichainb  no target of a transition lies properly below another target of the same transition;
+     ct_done_okb            below a <parallel>, <final> elements occur only as grand-children;
+     ct_root_silentb        no executable content asks In(<id of the root>).
+   For every such document the flat tables satisfy ALL static hypotheses of the theorems above. *)
+Theorem c01_side_conditions : forall late t, c01_treeb t = true ->
+  let c := flatten late t in
+  wf_coreb c = true /\ fs_type (st c 0) = FCompound /\ par_nonemptyb c = true /\ root_unmentionedb c = true /\
+  targets_antichainb c = true /\ done_okb c = true /\ root_silentb c = true.
+Proof. exact c01_side_conditions_lemma. Qed.
+Print Assumptions c01_side_conditions.
+
+(* selection_conforms with its static hypotheses on the document (the dynamic ones H1-H3 unchanged) *)
+Theorem document_selection_conforms : forall late t0 cfg ev x h,
+  let c := flatten late t0 in
+  core_treeb t0 = true -> ct_par_nonemptyb t0 = true ->
+  legal_configb c cfg = true -> ascb cfg = true ->
+  unrelated_enabledb c cfg ev x = true -> conds_pureb c cfg x = true -> descs_okb c cfg ev = true ->
+  select_loop lg_fixed c cfg ev (cfg_postfix c cfg) None [] x = Spec.select_transitions c cfg h ev x.
+Proof. exact document_selection_conforms_lemma. Qed.
+Print Assumptions document_selection_conforms.
+
+Theorem document_selection_conforms_spec_cfg : forall late t0 cfg' ev x h,
+  let c := flatten late t0 in
+  let cfg := 0 :: cfg' in
+  core_treeb t0 = true -> ct_par_nonemptyb t0 = true -> ct_root_unmentionedb t0 = true ->
+  legal_configb c cfg = true -> ascb cfg = true ->
+  unrelated_enabledb c cfg ev x = true -> conds_pureb c cfg x = true -> descs_okb c cfg ev = true ->
+  select_loop lg_fixed c cfg ev (cfg_postfix c cfg) None [] x = Spec.select_transitions c cfg' h ev x.
+Proof. exact document_selection_conforms_spec_cfg_lemma. Qed.
+Print Assumptions document_selection_conforms_spec_cfg.
+
+(* microstep_conforms / microstep_selected_conforms / step_conforms for every document that passes c01_treeb *)
+Theorem document_microstep_conforms : forall late t0 sel l s x,
+  let c := flatten late t0 in
+  c01_treeb t0 = true ->
+  legal_configb c (l_cfg l) = true -> corr c l s ->
+  (forall ti, In ti sel -> In (ft_source (tr c ti)) (l_cfg l)) ->
+  pairwise_ok lg_fixed c sel ->
+  (forall ti, In ti sel -> ft_history (tr c ti) || ft_initial (tr c ti) = false) ->
+  let r := microstep lg_fixed ex_fixed c l (emit TMsB x) (sel_targets c sel) (sel_exitset c (l_cfg l) sel) sel false in
+  let q := Spec.spec_microstep c sel s x in
+  corr c (fst r) (fst q) /\ snd q = emit (Spec.spec_cfg_tok c (fst q)) (snd r) /\ Spec.s_hv (fst q) = Spec.s_hv s.
+Proof. exact document_microstep_conforms_lemma. Qed.
+Print Assumptions document_microstep_conforms.
+
+Theorem document_microstep_selected_conforms : forall late t0 l s ev x0 x,
+  let c := flatten late t0 in
+  c01_treeb t0 = true ->
+  legal_configb c (l_cfg l) = true -> corr c l s ->
+  let sel := fst (select_loop lg_fixed c (l_cfg l) ev (cfg_postfix c (l_cfg l)) None [] x0) in
+  let r := microstep lg_fixed ex_fixed c l (emit TMsB x) (sel_targets c sel) (sel_exitset c (l_cfg l) sel) sel false in
+  let q := Spec.spec_microstep c sel s x in
+  corr c (fst r) (fst q) /\ snd q = emit (Spec.spec_cfg_tok c (fst q)) (snd r) /\ Spec.s_hv (fst q) = Spec.s_hv s.
+Proof. exact document_microstep_selected_conforms_lemma. Qed.
+Print Assumptions document_microstep_selected_conforms.
+
+Theorem document_step_conforms : forall late t0 l s ev x,
+  let c := flatten late t0 in
+  c01_treeb t0 = true ->
+  legal_configb c (l_cfg l) = true -> ascb (l_cfg l) = true -> corr c l s ->
+  unrelated_enabledb c (l_cfg l) ev x = true -> conds_pureb c (l_cfg l) x = true -> descs_okb c (l_cfg l) ev = true ->
+  let r := select_and_step lg_fixed ex_fixed c l x ev in
+  let en := fst (Spec.select_transitions c (Spec.s_cfg s) (Spec.s_hv s) ev x) in
+  snd (Spec.select_transitions c (Spec.s_cfg s) (Spec.s_hv s) ev x) = x /\
+  match en with
+  | [] => l_cfg (fst (fst r)) = l_cfg l /\ snd (fst r) = x
+  | _ => let q := Spec.spec_microstep c en s x in
+         corr c (fst (fst r)) (fst q) /\ snd q = emit (Spec.spec_cfg_tok c (fst q)) (snd (fst r)) /\
+         Spec.s_hv (fst q) = Spec.s_hv s
+  end.
+Proof. exact document_step_conforms_lemma. Qed.
+Print Assumptions document_step_conforms.
+
+Theorem document_entry_set_conforms : forall late t0 cfg sel h hist,
+  let c := flatten late t0 in
+  core_treeb t0 = true -> ct_targets_antichainb t0 = true -> legal_configb c cfg = true ->
+  (forall ti, In ti sel -> In (ft_source (tr c ti)) cfg) -> pairwise_ok lg_fixed c sel ->
+  Spec.e_histcontent (Spec.compute_entry_set c h sel) = [] /\
+  forall x, In x (Spec.e_enter (Spec.compute_entry_set c h sel)) <->
+            In x (fst (entry_set lg_fixed c cfg (sel_exitset c cfg sel) hist (sel_targets c sel) sel)) /\
+            ~ (In x cfg /\ ~ In x (sel_exitset c cfg sel)).
+Proof. exact document_entry_set_conforms_lemma. Qed.
+Print Assumptions document_entry_set_conforms.
+
+(* non-vacuity: the example document of C02 and a document with nested <parallel>s, 'initial' attributes, a
+   <final> as grand-child of a <parallel>, multi-target / internal / target-less transitions, a condition and
+   executable content with In() pass c01_treeb *)
+Theorem document_c01_hypotheses_satisfiable : c01_treeb LegalOracle.ex_tree = true /\ c01_treeb ex_tree3 = true.
+Proof. split; [exact ex_tree_c01 | exact ex_tree3_c01]. Qed.
+Print Assumptions document_c01_hypotheses_satisfiable.
+
+From V Require Import RunConformBase RunConformTok RunConformMicro RunConformInit RunConformStep RunConformLoop RunConformWitness.
+
+(* ==== the initial microstep, one call of step() with all its branches, and whole runs (history-free core) ====
+
+   Static conditions (RunConformStep.static_okb, a boolean on the flat chart): wf_coreb, the <scxml> element has a
+   child state (root_compoundb), par_nonemptyb, root_unmentionedb, targets_antichainb, done_okb, root_silentb (the
+   conditions of selection_conforms / microstep_conforms above) and two new ones:
+     chart_named           every <raise> names an event (LargeMicroStep never dequeues an unnamed internal event)
+     root_onexit_emptyb    the <scxml> element has no <onexit> (the model's documents may have one; the engine would
+                           run it at completion because its configuration contains the root)
+   Projection (RunConformBase.spec_view r): THE function the correspondence check applies to a trace before it
+   compares it with Appendix D (tools/chart_common.py spec_view, from_impl=True): keep EV, MS{ }MS, X{ }X, T{ }T,
+   E{ }E, C{ }C, LOG, COMPL{ }COMPL; drop the entry of the root (id r; the check's canonical root id is 0); keep the
+   first configuration token after each }MS with the root's id removed; drop everything else (return codes, the
+   STABLE notification, other configuration tokens, Spec's diagnostic token).  On a trace of Spec.spec_run every
+   configuration token directly follows a }MS, so this is also what the check computes for the Spec side
+   (from_impl=False, after strip_diag). *)
+
+(* The initial microstep.  For every document satisfying the static conditions, every pristine engine state (no
+   flag set, empty configuration, no data initialised) and execution states that agree in store and queues:
+   the first call of step() returns MICROSTEPPED and ends in a state that CORRESPONDS (MicroConform.corr) to the
+   state of Appendix D's interpret() just before the main event loop (global data initialised,
+   enterStates([doc.initial.transition]) -- RunConformInit.spec_init, which Spec.spec_run starts with:
+   RunConformInit.spec_run_unfold); the configuration is legal; store and queues are equal; and the traces are
+   the same tokens d between MS{ and }MS except that the engine reports the entry of the <scxml> element first
+   and Appendix D's transliteration has its diagnostic token there and the configuration token at the end.
+   Not covered: histories / <initial> elements (outside wf_coreb). *)
+Theorem initial_step_conforms : forall late t0 l xl xs,
+  let c := flatten late t0 in let r := fs_sid (st c 0) in
+  static_okb c = true ->
+  is_pristine l = true -> l_cfg l = [] -> l_initd l = [] -> same_dyn xl xs ->
+  let rl := large_step lg_fixed ex_fixed c l xl in
+  let q := spec_init c xs in
+  snd rl = RC_MICROSTEPPED /\
+  corr c (fst (fst rl)) (fst q) /\ Spec.s_hv (fst q) = [] /\ same_dyn (snd (fst rl)) (snd q) /\
+  legal_configb c (l_cfg (fst (fst rl))) = true /\
+  exists d dg,
+    x_out (snd (fst rl)) = TMsE :: d ++ TEe r :: TEb r :: TMsB :: x_out xl /\
+    x_out (snd q) = Spec.spec_cfg_tok c (fst q) :: TMsE :: d ++ TDiag dg :: TMsB :: x_out xs.
+Proof. exact initial_step_conforms_lemma. Qed.
+Print Assumptions initial_step_conforms.
+
+(* One call of step(), ALL branches of LargeMicroStep::step, against the piece of Appendix D's loop that is due
+   (RunConformStep.spec_step: Appendix D cut where step() returns; which piece is due is read off the engine's context
+   flags): FINISHED is absorbing; TOP_LEVEL_FINAL runs exitInterpreter (onexit handlers in reverse document
+   order); the pristine interpreter performs the initial step; SPONTANEOUS selects event-less transitions; then
+   the internal queue before the external queue; the STABLE notification and IDLE have no counterpart; an event
+   that enables nothing sets SPONTANEOUS again (event-less re-selection before the next dequeue); a cancelled
+   interpreter with empty queues stops running.
+   RunConformStep.rsim relates (engine state, its execution state) to (Appendix D's state, its execution state): equal
+   store and queues; the two traces have the same projection; before the first step the engine is pristine,
+   afterwards the states correspond (corr), the configuration is legal and ascending, and while SPONTANEOUS is
+   clear Appendix D's event-less selection is known to be empty.
+   Statement: from related states, if the boolean step_guardb holds (for a selection: unrelated_enabledb,
+   conds_pureb, descs_okb of selection_conforms and the dequeued event has a name; for completion: no onexit
+   handler of an active state asks In() about an active state later in document order), the state after step()
+   -- with the return code and configuration tokens the driver loop records -- is related to the state after
+   spec_step.  Legality and ascending order of the configuration are not hypotheses: they are part of rsim and
+   are re-established (LegalRun.v, LargeCacheLemmas.v). *)
+Theorem large_step_conforms : forall late t0,
+  let c := flatten late t0 in
+  static_okb c = true -> forall l xl s xs,
+  rsim c l xl s xs -> step_guardb c l xl = true ->
+  let rl := large_step lg_fixed ex_fixed c l xl in
+  let q := spec_step c l s xs in
+  rsim c (fst (fst rl)) (loop_toks c (fst (fst rl)) (snd rl) (snd (fst rl))) (fst q) (snd q).
+Proof. exact large_step_conforms_lemma. Qed.
+Print Assumptions large_step_conforms.
+
+(* Whole runs.  For every document t0 (binding late or early), every list evs of external event names and every
+   bound fuel on the number of calls of step(): if the static conditions hold, the run-level guard holds
+   (RunConformLoop.run_guardb replays the run of the ENGINE MODEL -- Interp.run_loop from the pristine state -- and
+   evaluates step_guardb before every call of step(); events handed in must have a name) and the run is complete
+   within the bound (RunConformLoop.run_completeb: it ended with FINISHED, or with IDLE and no event left), then for
+   EVERY spec fuel' >= fuel the projected trace of Interp.run_large is the projected trace of Spec.run_spec
+   (Appendix D: same events consumed in the same order, same exits, transition contents, entries, executed
+   content and log output in every microstep, same configuration after every microstep, same completion) and
+   the final datamodel stores are equal.  Fuel: run_loop counts calls of step(), spec_loop iterations of Appendix
+   D's loop; a call is one iteration or none, hence "every fuel' >= fuel".
+   Not covered: histories and <initial> elements; runs in which a guard fails (the recorded deviation classes
+   C01-K1..K3 and the corners below); invocations, delayed <send>, cancel() from outside (not in the model's driver). *)
+Theorem run_conforms : forall late t0,
+  let c := flatten late t0 in let r := fs_sid (st c 0) in
+  static_okb c = true -> forall evs fuel, run_guardb c evs fuel = true -> run_completeb c evs fuel = true ->
+  forall fuel', fuel <= fuel' ->
+    spec_view r (fst (run_large lg_fixed ex_fixed late t0 evs fuel)) = spec_view r (fst (run_spec late t0 evs fuel')) /\
+    snd (run_large lg_fixed ex_fixed late t0 evs fuel) = snd (run_spec late t0 evs fuel').
+Proof. exact run_conforms_lemma. Qed.
+Print Assumptions run_conforms.
+
+(* Runs cut by the bound.  For every number fuel+1 of calls of step() for which the guard holds there is a number
+   k <= fuel of iterations of Appendix D's loop such that the engine's state corresponds to Appendix D's state
+   after interpret()'s start and k iterations, the stores are equal and the projected traces are equal, where
+   Appendix D's exitInterpreter has been run iff the engine is FINISHED. *)
+Theorem run_conforms_prefix : forall late t0,
+  let c := flatten late t0 in let r := fs_sid (st c 0) in
+  static_okb c = true -> forall evs fuel, run_guardb c evs (S fuel) = true ->
+  exists k, k <= fuel /\
+    let res := run_loop c lstate (large_step lg_fixed ex_fixed c) l_cfg (S fuel) l_pristine x_init evs in
+    let sp := Spec.spec_loop c k (fst (spec_init c x_init)) (snd (spec_init c x_init)) evs in
+    let xs' := if l_fin (fst res) then Spec.exit_interpreter c (fst sp) (snd sp) else snd sp in
+    corr c (fst res) (fst sp) /\ x_store (snd res) = x_store xs' /\
+    spec_view r (rev (x_out (snd res))) = spec_view r (rev (x_out xs')).
+Proof. exact run_conforms_prefix_lemma. Qed.
+Print Assumptions run_conforms_prefix.
+
+(* the hypotheses are satisfiable by a whole non-trivial run: a <parallel> with two compound regions, a condition
+   with In() and a data comparison, <raise>, <send> to the session itself, <assign>, <log>, a top-level <final>,
+   three external events; five microsteps, completion, FINISHED *)
+Theorem run_conforms_hypotheses_satisfiable :
+  let c := flatten false rw_tree in
+  static_okb c = true /\ run_guardb c rw_evs 40 = true /\ run_completeb c rw_evs 40 = true /\
+  count_ms (fst (run_large lg_fixed ex_fixed false rw_tree rw_evs 40)) = 5 /\
+  snd (run_large lg_fixed ex_fixed false rw_tree rw_evs 40) = [(1%N, 1%Z)].
+Proof. exact run_conforms_nonvacuous. Qed.
+Print Assumptions run_conforms_hypotheses_satisfiable.
+
+(* ---- none of the new conditions can be dropped (witnesses by computation; views_differ = the two projected
+   traces are different lists) ---- *)
+(* <onexit> on <scxml>: all other static conditions, the guard and completeness hold *)
+Theorem run_root_onexit_refuted :
+  exists late t evs fuel, let c := flatten late t in
+    static_parts_of c = (true, true, true, true, true, true, true, true, false) /\
+    run_guardb c evs fuel = true /\ run_completeb c evs fuel = true /\ views_differ late t evs fuel.
+Proof. exact RunConformWitness.run_root_onexit_refuted. Qed.
+Print Assumptions run_root_onexit_refuted.
+
+(* <raise event=""/>: the engine never dequeues it (IDLE for ever), Appendix D processes it *)
+Theorem run_unnamed_raise_refuted :
+  exists late t evs fuel, let c := flatten late t in
+    static_parts_of c = (true, true, true, true, true, true, true, false, true) /\
+    run_completeb c evs fuel = true /\ views_differ late t evs fuel.
+Proof. exact RunConformWitness.run_unnamed_raise_refuted. Qed.
+Print Assumptions run_unnamed_raise_refuted.
+
+(* <send event=""/> to the session itself, and an unnamed event from outside: the unnamed external event is the
+   engine's cancel marker and is dropped; only the guard's name test fails *)
+Theorem run_unnamed_send_refuted :
+  exists late t evs fuel, let c := flatten late t in
+    static_okb c = true /\ run_guardb c evs fuel = false /\ run_completeb c evs fuel = true /\ views_differ late t evs fuel.
+Proof. exact RunConformWitness.run_unnamed_send_refuted. Qed.
+Print Assumptions run_unnamed_send_refuted.
+
+Theorem run_unnamed_event_refuted :
+  exists late t evs fuel, let c := flatten late t in
+    static_okb c = true /\ run_guardb c evs fuel = false /\ run_completeb c evs fuel = true /\ views_differ late t evs fuel.
+Proof. exact RunConformWitness.run_unnamed_event_refuted. Qed.
+Print Assumptions run_unnamed_event_refuted.
+
+(* completion: the engine evaluates In() in onexit handlers against the full configuration, exitInterpreter against
+   the shrinking one (witness: a <final> with a child state entered through a transition to the child) *)
+Theorem run_completion_in_refuted :
+  exists late t evs fuel, let c := flatten late t in
+    static_okb c = true /\ run_guardb c evs fuel = false /\ run_completeb c evs fuel = true /\ views_differ late t evs fuel /\
+    compl_guardb c (l_cfg (fst (run_loop c lstate (large_step lg_fixed ex_fixed c) l_cfg fuel l_pristine x_init evs))) = false.
+Proof. exact RunConformWitness.run_completion_in_refuted. Qed.
+Print Assumptions run_completion_in_refuted.
+
+(* the selection guard (known finding C01-K1 at run level), and completeness of the run *)
+Theorem run_selection_guard_refuted :
+  exists late t evs fuel, let c := flatten late t in
+    static_okb c = true /\ run_guardb c evs fuel = false /\ run_completeb c evs fuel = true /\ views_differ late t evs fuel.
+Proof. exact RunConformWitness.run_selection_guard_refuted. Qed.
+Print Assumptions run_selection_guard_refuted.
+
+Theorem run_incomplete_refuted :
+  exists late t evs fuel, let c := flatten late t in
+    static_okb c = true /\ run_guardb c evs fuel = true /\ run_completeb c evs fuel = false /\ views_differ late t evs fuel.
+Proof. exact RunConformWitness.run_incomplete_refuted. Qed.
+Print Assumptions run_incomplete_refuted.
